@@ -75,6 +75,63 @@ def main():
         del held
         return top
 
+    def shape(k):
+        """Hand-written designs for corners the generator reaches rarely (still run under every seed / order / history)."""
+        from decimal import Decimal
+        from hdl21.prefix import Prefix, Prefixed
+        if k < 4:
+            # generator calls whose parameters hold ONE number written four ways (1*µ = 1000*n = 0.001*m = 1.0*µ): what a call is
+            # named must not depend on which spelling the process met first
+            from hdl21.generators import Series
+            num, pe = [("1", -6), ("1000", -9), ("0.001", -3), ("1.0", -6)][k]
+            unit = h.Mos(w=Prefixed(number=Decimal(num), prefix=Prefix(pe)), l=Prefixed(number=Decimal("150"), prefix=Prefix(-9)))
+            top = h.Module(name="ShapeSeries%d" % k)
+            top.d, top.g, top.s, top.b = h.Signals(4)
+            top.add(Series(unit=unit, nser=2 + k, conns=("d", "s"))(d=top.d, g=top.g, s=top.s, b=top.b), name="st")
+            return top
+        if k == 4:
+            # one bundle-valued port reference driving two bundle ports of one instance
+            B = h.Bundle(name="ShapeB"); B.add(h.Signal(name="x")); B.add(h.Signal(name="y", width=2))
+            lo = h.Module(name="ShapeLo"); lo.add(B(port=True), name="out"); lo.add(h.R(r=1)(p=lo.out.x, n=lo.out.y[0]), name="r")
+            mx = h.Module(name="ShapeMixer"); mx.add(B(port=True), name="rf"); mx.add(B(port=True), name="lo")
+            mx.add(h.R(r=2)(p=mx.rf.x, n=mx.lo.x), name="r"); mx.add(h.C(c=1)(p=mx.rf.y[1], n=mx.lo.y[0]), name="c")
+            top = h.Module(name="ShapeTwice")
+            top.add(lo(), name="osc")
+            top.add(mx(rf=top.osc.out, lo=top.osc.out), name="mix")
+            return top
+        if k == 5:
+            # a reference cycle between two ports of one instance, plus a fan through a second instance
+            L = h.ExternalModule(name="ShapeLatch", port_list=[h.Port(name="d"), h.Port(name="q"), h.Port(name="qb"), h.Port(name="en")], domain="verif")
+            top = h.Module(name="ShapeCycle")
+            top.en = h.Input()
+            top.add(L()(en=top.en), name="latch")
+            top.latch.q = top.latch.d
+            top.latch.d = top.latch.q
+            top.add(L()(en=top.en, d=top.latch.qb), name="l2")
+            top.l2.q = top.l2.qb
+            top.l2.qb = top.l2.q
+            return top
+        if k == 6:
+            # a set-valued generator parameter
+            import typing
+
+            @h.paramclass
+            class ShapeTags:
+                tags = h.Param(dtype=typing.FrozenSet[str], desc="tags")
+                n = h.Param(dtype=int, desc="n", default=1)
+
+            def ShapeTagged(p: ShapeTags) -> h.Module:
+                m = h.Module()
+                m.add(h.Signal(name="s", width=len(p.tags)))
+                return m
+            G = h.generator(ShapeTagged)
+            top = h.Module(name="ShapeSet")
+            top.add(G(tags=frozenset(["alpha", "beta", "gamma", "delta", "epsilon", "zeta"]))(), name="a")
+            top.add(G(tags=frozenset(["vdd", "vss", "bias"]), n=2)(), name="b")
+            return top
+        raise ValueError(k)
+
+    NSHAPES = 7
     stats = {}
     items = job["items"]
     drop = job.get("drop", False)  # earlier designs are discarded and collected, so later objects re-use their addresses
@@ -91,6 +148,9 @@ def main():
                 b = Builder(it["spec"])
                 keep.append(b)
                 top = b.module(it["spec"]["top"])
+            elif "shape" in it:
+                top = shape(it["shape"])
+                keep.append(top)
             elif "churn" in it:
                 top = churn(it["churn"], drop)
                 keep.append(top)
